@@ -66,12 +66,19 @@ inductive ReqPc where
   | a1 | a2 | queued | running | p1 | w1 | wr | w2 (e : Err) | p2 | fin
 deriving DecidableEq, Repr, Inhabited
 
-structure Req where
+/-- The bookkeeping part of an incoming request (what the counters and tables depend on). -/
+structure ReqCore where
   id : Option Nat := none          -- wire id of a call; none for a notification
-  cancelTarget : Option Nat := none -- notifications/cancelled for this id
   isCall : Bool := false           -- `req.IsCall()`: false for notifications and after A1 cleared a duplicate id
   pc : ReqPc := .a1
-  owner : Owner := .reader
+  owner : Owner := .reader         -- the goroutine that runs processResult for it
+  wrote : Nat := 0                 -- ghost: response writes attempted (W1 reached)
+  responses : Nat := 0             -- ghost: responses handed to a successful transport Write
+deriving Repr, Inhabited, DecidableEq
+
+/-- The rest of an incoming request: context cancellation, release of the dispatcher, ghost stamps. -/
+structure ReqMeta where
+  cancelTarget : Option Nat := none -- notifications/cancelled for this id
   cancelled : Option Cause := none
   released : Bool := false         -- the dispatcher may go on (Async, or the handler goroutine finished)
   asyncCalled : Bool := false
@@ -79,8 +86,6 @@ structure Req where
   seen : Bool := false             -- passed A1 and was offered to the preempter (its ctx is observable)
   started : Option Nat := none     -- ghost: stamp when Handle was entered
   ended : Option Nat := none       -- ghost: stamp when Handle returned
-  responses : Nat := 0             -- ghost: responses handed to a successful transport Write
-  wrote : Nat := 0                 -- ghost: response writes attempted (W1 reached)
 deriving Repr, Inhabited
 
 inductive ReaderPc where
@@ -116,7 +121,8 @@ structure St where
   calls : List Call := []             -- call n is calls[n-1]
   unotifs : List Notif := []          -- user Notify processes u0,u1,…
   cnotifs : List (Nat × Notif) := []  -- detached cancel notifications, keyed by call number
-  reqs : List Req := []               -- request r is reqs[r] (arrival order)
+  cores : List ReqCore := []          -- request r is (cores[r], metas[r]) (arrival order)
+  metas : List ReqMeta := []
   cancels : List Nat := []            -- Cancel(id) goroutines parked before K1
   closeCl1 : Nat := 0                 -- Close() goroutines parked before CL1
   closeWaiting : Nat := 0             -- … blocked on <-done
@@ -168,7 +174,8 @@ def retireCall (c : Call) (r : Res) : Call × Bool :=
 
 def modCall (s : St) (n : Nat) (f : Call → Call) : St := { s with calls := s.calls.modify (n - 1) f }
 def getCall (s : St) (n : Nat) : Option Call := if n = 0 then none else s.calls[n - 1]?
-def modReq (s : St) (r : Nat) (f : Req → Req) : St := { s with reqs := s.reqs.modify r f }
+def modCore (s : St) (r : Nat) (f : ReqCore → ReqCore) : St := { s with cores := s.cores.modify r f }
+def modMeta (s : St) (r : Nat) (f : ReqMeta → ReqMeta) : St := { s with metas := s.metas.modify r f }
 
 def retireIn (s : St) (n : Nat) (res : Res) : St :=
   match getCall s n with
@@ -179,7 +186,7 @@ def retireIn (s : St) (n : Nat) (res : Res) : St :=
     if p then { s with panicRetire := true } else s
 
 def cancelReq (s : St) (r : Nat) (cause : Cause) : St :=
-  modReq s r (fun q => if q.cancelled.isSome then q else { q with cancelled := some cause })
+  modMeta s r (fun q => if q.cancelled.isSome then q else { q with cancelled := some cause })
 
 /-- Who is writing: an outgoing call, a user notification, a detached cancel notification, a response. -/
 inductive Who where
@@ -220,19 +227,19 @@ def afterP2 (s : St) (r : Nat) (own : Owner) : St :=
   match own with
   | .reader => { s with reader := .read }
   | .dispatcher => { s with disp := .d1 }
-  | .handler => modReq s r (fun q => { q with released := true })
+  | .handler => modMeta s r (fun q => { q with released := true })
 
 /-- The goroutine running processResult reaches the park point before P2; `req.cancel(nil)` has just run. -/
 def toP2 (s : St) (r : Nat) : St :=
-  cancelReq (modReq s r fun q => { q with pc := .p2 }) r .finished
+  cancelReq (modCore s r fun q => { q with pc := .p2 }) r .finished
 
 /-- Begin processResult for request r on goroutine `own`: calls go to P1, notifications to P2. -/
 def beginPR (s : St) (r : Nat) (own : Owner) : St :=
-  match s.reqs[r]? with
+  match s.cores[r]? with
   | none => s
   | some q =>
-    if q.isCall then modReq s r (fun q => { q with owner := own, pc := .p1 })
-    else toP2 (modReq s r (fun q => { q with owner := own })) r
+    if q.isCall then modCore s r (fun q => { q with owner := own, pc := .p1 })
+    else toP2 (modCore s r (fun q => { q with owner := own })) r
 
 /-- A caller blocked in `Await` (mcp/transport.go:281-312) continues as soon as the call is ready or
 its context is done: a closing-class error with a live context returns "connection closed"; a done
@@ -265,7 +272,7 @@ def settleWaiters (s : St) : St :=
 def settleDisp (s : St) : St :=
   match s.disp with
   | .waiting r =>
-    match s.reqs[r]? with
+    match s.metas[r]? with
     | some q => if q.released then { s with disp := .d1 } else s
     | none => s
   | _ => s
@@ -297,9 +304,9 @@ def step0 (s : St) : Label → Option St
     match m with
     | .eof => some { s with reader := .rx }
     | .resp id p => some { s with reader := .rr id p }
-    | .call id => some { s with reader := .busy, reqs := s.reqs ++ [{ id := some id, isCall := true }] }
-    | .notif => some { s with reader := .busy, reqs := s.reqs ++ [{}] }
-    | .cancel id => some { s with reader := .busy, reqs := s.reqs ++ [{ cancelTarget := some id }] }
+    | .call id => some { s with reader := .busy, cores := s.cores ++ [{ id := some id, isCall := true }], metas := s.metas ++ [{}] }
+    | .notif => some { s with reader := .busy, cores := s.cores ++ [{}], metas := s.metas ++ [{}] }
+    | .cancel id => some { s with reader := .busy, cores := s.cores ++ [{}], metas := s.metas ++ [{ cancelTarget := some id }] }
   | .wret w o =>
     match w with
     | .call n =>
@@ -316,13 +323,13 @@ def step0 (s : St) : Label → Option St
         | .ctx, true => some (modCall s n fun c => { c with pc := .r .ctx })
         | _, _ => none
     | .resp r =>
-      match s.reqs[r]? with
+      match s.cores[r]? with
       | none => none
       | some q =>
         if q.pc ≠ .wr then none else
         match o with
-        | .ok => some (toP2 (modReq { s with wire := s.wire ++ [(r, false)] } r fun q => { q with responses := q.responses + 1 }) r)
-        | .broken => some (modReq { s with brokenWrites := s.brokenWrites + 1 } r fun q => { q with pc := .w2 .broken })
+        | .ok => some (toP2 (modCore { s with wire := s.wire ++ [(r, false)] } r fun q => { q with responses := q.responses + 1 }) r)
+        | .broken => some (modCore { s with brokenWrites := s.brokenWrites + 1 } r fun q => { q with pc := .w2 .broken })
         | .rejected => some (toP2 s r)
         | .ctx => none     -- response writes use notDone{ctx}: never cancelled
     | w =>
@@ -336,19 +343,19 @@ def step0 (s : St) : Label → Option St
         | .rejected => some (setNotif s w fun nf => { nf with pc := .n2 (some .rejected) })
         | .ctx => none     -- notification contexts are never cancelled by the harness
   | .hasync r =>
-    match s.reqs[r]? with
-    | none => none
-    | some q =>
-      if q.pc ≠ .running || q.asyncCalled then none
-      else some (modReq s r fun q => { q with asyncCalled := true, released := true })
+    match s.cores[r]?, s.metas[r]? with
+    | some q, some m =>
+      if q.pc ≠ .running || m.asyncCalled then none
+      else some (modMeta s r fun m => { m with asyncCalled := true, released := true })
+    | _, _ => none
   | .hret r _ =>
-    match s.reqs[r]? with
+    match s.cores[r]? with
     | none => none
     | some q =>
       if q.pc ≠ .running then none
       else
         let s := { s with clock := s.clock + 1 }
-        let s := modReq s r fun q => { q with ended := some s.clock }
+        let s := modMeta s r fun q => { q with ended := some s.clock }
         some (beginPR s r .handler)
   -- ───────────── critical sections ─────────────
   | .start =>
@@ -434,7 +441,7 @@ def step0 (s : St) : Label → Option St
     let s := s.byID.foldl (fun s p => cancelReq s p.2 .read) s
     some (tail s)
   | .a1 r =>
-    match s.reqs[r]? with
+    match s.cores[r]? with
     | none => none
     | some q =>
       if q.pc ≠ .a1 then none else
@@ -443,30 +450,30 @@ def step0 (s : St) : Label → Option St
       | some id, true =>
         if (s.byID.lookup id).isSome then
           -- duplicate in-flight id: the request loses its id and is dropped as a notification
-          let s := modReq s r fun q => { q with isCall := false, rejected := true }
+          let s := modMeta (modCore s r fun q => { q with isCall := false }) r fun m => { m with rejected := true }
           some (tail (beginPR s r .reader))
         else
           let s := { s with byID := s.byID ++ [(id, r)] }
           if s.shuttingDown then
-            let s := modReq s r fun q => { q with rejected := true }
+            let s := modMeta s r fun q => { q with rejected := true }
             some (tail (beginPR s r .reader))
-          else some (tail (modReq s r fun q => { q with pc := .a2, seen := true }))
+          else some (tail (modMeta (modCore s r fun q => { q with pc := .a2 }) r fun m => { m with seen := true }))
       | _, _ =>
         -- notification: the canceller preempter turns notifications/cancelled into `go Cancel(id)`
-        let s := match q.cancelTarget with
+        let s := match (s.metas[r]?).bind (·.cancelTarget) with
           | some id => { s with cancels := s.cancels ++ [id] }
           | none => s
-        some (tail (modReq s r fun q => { q with pc := .a2, seen := true }))
+        some (tail (modMeta (modCore s r fun q => { q with pc := .a2 }) r fun m => { m with seen := true }))
   | .a2 r =>
-    match s.reqs[r]? with
+    match s.cores[r]? with
     | none => none
     | some q =>
       if q.pc ≠ .a2 then none else
       if s.shuttingDown then
-        let s := modReq s r fun q => { q with rejected := true }
+        let s := modMeta s r fun q => { q with rejected := true }
         some (tail (beginPR s r .reader))
       else
-        let s := modReq { s with queue := s.queue ++ [r], reader := .read } r fun q => { q with pc := .queued }
+        let s := modCore { s with queue := s.queue ++ [r], reader := .read } r fun q => { q with pc := .queued }
         if s.handlerRunning then some (tail s)
         else some (tail { s with handlerRunning := true, disp := .d1 })
   | .d1 =>
@@ -475,30 +482,30 @@ def step0 (s : St) : Label → Option St
     | [] => some (tail { s with handlerRunning := false, disp := .none })
     | r :: rest =>
       let s := tail { s with queue := rest }
-      match s.reqs[r]? with
+      match s.metas[r]? with
       | none => none
       | some q =>
         if q.cancelled.isSome then
           some (beginPR { s with disp := .busy r } r .dispatcher)
         else
           let s := { s with clock := s.clock + 1, disp := .waiting r }
-          some (modReq s r fun q => { q with pc := .running, owner := .handler, started := some s.clock })
+          some (modMeta (modCore s r fun q => { q with pc := .running, owner := .handler }) r fun m => { m with started := some s.clock })
   | .p1 r =>
-    match s.reqs[r]? with
+    match s.cores[r]? with
     | none => none
     | some q =>
       if q.pc ≠ .p1 then none else
       let s := match q.id with
         | some id => { s with byID := s.byID.filter (fun p => p.1 ≠ id) }
         | none => s
-      some (tail (modReq s r fun q => { q with pc := .w1 }))
+      some (tail (modCore s r fun q => { q with pc := .w1 }))
   | .p2 r =>
-    match s.reqs[r]? with
+    match s.cores[r]? with
     | none => none
     | some q =>
       if q.pc ≠ .p2 then none else
       let s := if s.incoming = 0 then { s with panicIncoming := true } else { s with incoming := s.incoming - 1 }
-      let s := tail (modReq s r fun q => { q with pc := .fin })
+      let s := tail (modCore s r fun q => { q with pc := .fin })
       some (afterP2 s r q.owner)
   | .w1 w =>
     match w with
@@ -513,12 +520,12 @@ def step0 (s : St) : Label → Option St
           -- nothing about the writer's health, so there is no W2); Call then retires the call
           some (tail (modCall s n fun c => { c with pc := .r .serverClosing }))
     | .resp r =>
-      match s.reqs[r]? with
+      match s.cores[r]? with
       | none => none
       | some q =>
         if q.pc ≠ .w1 then none else
-        let s := modReq s r fun q => { q with wrote := q.wrote + 1 }
-        if gateOpen s false then some (tail (modReq s r fun q => { q with pc := .wr }))
+        let s := modCore s r fun q => { q with wrote := q.wrote + 1 }
+        if gateOpen s false then some (tail (modCore s r fun q => { q with pc := .wr }))
         else some (toP2 (tail s) r)      -- refused: the response is dropped, no W2
     | w =>
       match getNotif s w with
@@ -537,7 +544,7 @@ def step0 (s : St) : Label → Option St
         | .w2 e => some (tail (modCall (markBroken s) n fun c => { c with pc := .r e }))
         | _ => none
     | .resp r =>
-      match s.reqs[r]? with
+      match s.cores[r]? with
       | none => none
       | some q =>
         match q.pc with
